@@ -53,7 +53,7 @@ type Engine struct {
 	// controlledTriggersBySite stores the set of controlled triggers for each site if the site
 	// controls any triggers. This field is for internal use in the struct only and should not be
 	// accessed elsewhere.
-	controlledTriggersBySite map[primitiveSite]map[annotation.FullTrigger]bool
+	controlledTriggersBySite map[primitiveSite][]annotation.FullTrigger
 }
 
 // NewEngine constructs an inference engine that is ready to run inference.
@@ -301,7 +301,7 @@ func (e *Engine) ObservePackage(pkgFullTriggers []annotation.FullTrigger) {
 
 func (e *Engine) buildPkgInferenceMap(triggers []annotation.FullTrigger) {
 	// Map each site to all the triggers controlled by the site
-	controlledTgsBySite := map[primitiveSite]map[annotation.FullTrigger]bool{}
+	controlledTgsBySite := map[primitiveSite][]annotation.FullTrigger{}
 	for _, trigger := range triggers {
 		if !trigger.Controlled() {
 			continue
@@ -310,12 +310,11 @@ func (e *Engine) buildPkgInferenceMap(triggers []annotation.FullTrigger) {
 		// consumer, which Kind() method returns Conditional which is not deep. Thus, we pass false
 		// here.
 		site := e.primitive.site(trigger.Controller, false)
-		ts, ok := controlledTgsBySite[site]
-		if !ok {
-			ts = map[annotation.FullTrigger]bool{}
-			controlledTgsBySite[site] = ts
+		// Keep the controlled triggers in their original order (without duplicates) such that
+		// they are activated in a deterministic order.
+		if !slices.Contains(controlledTgsBySite[site], trigger) {
+			controlledTgsBySite[site] = append(controlledTgsBySite[site], trigger)
 		}
-		ts[trigger] = true
 	}
 	e.controlledTriggersBySite = controlledTgsBySite
 
@@ -468,7 +467,7 @@ func (e *Engine) storeDeterminedAndActivateControlledTriggers(site primitiveSite
 // to be a new value.
 func (e *Engine) activateControlledTriggers(site primitiveSite, siteExplained ExplainedBool) {
 	if controlledTgs, ok := e.controlledTriggersBySite[site]; ok && siteExplained.Val() {
-		for tg := range controlledTgs {
+		for _, tg := range controlledTgs {
 			e.buildFromSingleFullTrigger(tg)
 		}
 	}
